@@ -1,0 +1,35 @@
+//go:build verif
+
+package box
+
+// Contracts for govc (/verif). Comments only.
+//
+// Sealed boxes (crypto_box_seal): the nonce is BLAKE2b-192(ephemeral public key | recipient public key)
+// - decided as "the bytes hashed are exactly these 64 bytes, in this order, into a 24-byte digest", the
+// BLAKE2b value itself is uninterpreted - and OpenAnonymous refuses exactly the boxes shorter than the
+// 48 bytes of overhead before it looks at anything, takes the ephemeral key from the first 32 bytes and
+// hands the rest to Open.
+
+//@ func sealNonce
+//@ props C10
+//@ nonnil ephemeralPub peersPublicKey nonce
+//@ modifies heap
+//@ ensures result == nil
+//@ check_at "h.Sum(nonce[:0])" spec.hsize(h) == 24 && ghost(h, hlen) == 64
+//@ check_at "h.Sum(nonce[:0])" forall(q, 0, 32, ghost(h, hbuf)[q] == ephemeralPub[q]) && forall(q, 0, 32, ghost(h, hbuf)[32 + q] == peersPublicKey[q])
+//@ canary ensures result != nil
+
+//@ func Open
+//@ trusted
+//@ note Precompute (X25519 + HSalsa20) followed by secretbox.Open (C10 contract there): not composed here
+//@ modifies heap
+
+//@ func OpenAnonymous
+//@ props C10
+//@ nonnil publicKey privateKey
+//@ modifies heap
+//@ ensures implies(len(box) < 48, !ok && message == nil)
+// a box of at least 48 bytes is never refused by the length check (the only other refusals are Open's)
+//@ check_at "return nil, false" len(box) < 48
+//@ check_at "return Open(out, box[32:], &nonce, &ephemeralPub, privateKey)" len(box) >= 48 && forall(i, 0, 32, ephemeralPub[i] == box[i])
+//@ canary ensures ok
